@@ -241,14 +241,17 @@ func (root *Root) regField(obj *Object, fd *FieldDef, goField string, args ...st
 			return
 		}
 	}
+	// A registration that is refused leaves the binding and the arguments of
+	// the field as they were.
+	var method *reflect.Value
 	for i := objMeta.NumMethod() - 1; 0 <= i; i-- {
 		m := objMeta.Method(i)
 		if strings.EqualFold(m.Name, goField) {
-			fd.method = &m.Func
+			method = &m.Func
 			break
 		}
 	}
-	if fd.method != nil {
+	if method != nil {
 		if 0 < len(args) {
 			if fd.args.Len() != len(args) {
 				return fmt.Errorf("%w: not enough arguments for field %s of %s", ErrMeta, goField, objMeta)
@@ -258,12 +261,12 @@ func (root *Root) regField(obj *Object, fd *FieldDef, goField string, args ...st
 				if a := fd.args.get(arg); a != nil {
 					_ = newArgs.add(a)
 				} else {
-					err = fmt.Errorf("%w: %s is not an argument on field %s of %s", ErrMeta, arg, goField, objMeta)
-					break
+					return fmt.Errorf("%w: %s is not an argument on field %s of %s", ErrMeta, arg, goField, objMeta)
 				}
 			}
 			fd.args = newArgs
 		}
+		fd.method = method
 		return
 	}
 	return fmt.Errorf("%w: %s is not a field of %s", ErrMeta, goField, objMeta)
